@@ -22,7 +22,7 @@ Dims == <<
   <<"none", "cl_small", "cl_32k", "cl_big", "chunked_small", "chunked_big">>,                  \* 5 request body
   <<"200", "201", "204", "304", "301", "404", "500", "503", "103+404", "103+200">>,             \* 6 status (103+x: Early Hints first)
   <<"plain", "setcookies", "unusual_ct", "pre_gzip", "no_ct", "own_ids">>,                               \* 7 response headers
-  <<"none", "cl_small", "cl_64k1", "chunked3", "stream3", "sse", "cl_stream3">>,                              \* 8 response body
+  <<"none", "cl_small", "cl_64k1", "chunked3", "stream3", "sse", "cl_stream3", "cl_stream_small">>,                              \* 8 response body
   <<"", "/api">>,                                                                               \* 9 backend base path
   <<"round_robin", "least_connections", "weighted_round_robin", "ip_hash", "ip_hash_consistent">>, \* 10 strategy
   <<"ids_on", "ids_off">>,                                                                      \* 11 request/trace id middleware
